@@ -2,7 +2,11 @@
 //
 //   harness lines            read cases on stdin, one output line per case
 //   harness threads N ITERS  N threads x ITERS rounds of TimeStamp creation/renewal/copy
-//   harness counter START N ITERS   (needs -DC19_PRIV) store START into the private static counter
+//   harness static           (needs -DC19_STATIC_INIT) the history $C19_PRE was executed by a static object's constructor
+//                            before main() (together with namespace-scope TimeStamp/Observable/Observer objects); main
+//                            continues it with $C19_POST and prints the usual H line, then " ## pre:... main:..." for the
+//                            namespace-scope objects (expected "pre:increasing,010 main:increasing,101010")
+//   harness counter START N ITERS   (needs -DC19_PRIV -DC19_COUNTER) store START into the private static counter
 //                            TimeStamp::global first, then the same run: probes the counter around
 //                            2^31, 2^32, 2^63 (a narrowed counter repeats or decreases there)
 //
@@ -70,16 +74,24 @@ static bool freshCheck(size_t v)
   return ok;
 }
 
-static std::string runH(const std::vector<std::string> &ops)
+// one history, executed token by token (the static-initialisation scenario runs a prefix before main())
+struct HRun
 {
-  Observable *B[NB] = {nullptr, nullptr};
-  Observer *O[NO] = {nullptr, nullptr, nullptr, nullptr};
+  Observable *B[NB];
+  Observer *O[NO];
   std::ostringstream hard, soft;
-  TimeStamp probe;
-  size_t base = size_t(probe) + 1;
-  freshCheck(size_t(probe));
-  bool first = true;
-  for (auto &tok : ops) {
+  size_t base;
+  bool first;
+  HRun() : first(true)
+  {
+    for (int b = 0; b < NB; ++b) B[b] = nullptr;
+    for (int o = 0; o < NO; ++o) O[o] = nullptr;
+    TimeStamp probe;
+    base = size_t(probe) + 1;
+    freshCheck(size_t(probe));
+  }
+  void step(const std::string &tok)
+  {
     auto f = split(tok, ':');
     std::string out = "ok";
     bool fresh = true;
@@ -146,10 +158,78 @@ static std::string runH(const std::vector<std::string> &ops)
     }
 #endif
   }
-  for (int o = 0; o < NO; ++o) delete O[o];   // observers first, then observables
-  for (int b = 0; b < NB; ++b) delete B[b];
-  return hard.str() + " ## " + soft.str();
+  std::string finish()
+  {
+    for (int o = 0; o < NO; ++o) delete O[o];   // observers first, then observables
+    for (int b = 0; b < NB; ++b) delete B[b];
+    return hard.str() + " ## " + soft.str();
+  }
+};
+
+static std::string runH(const std::vector<std::string> &ops)
+{
+  HRun r;
+  for (auto &tok : ops) r.step(tok);
+  return r.finish();
 }
+
+#ifdef C19_STATIC_INIT
+// ---------------------------------------------------------------- static initialisation scenario
+// Objects with static storage duration and a history prefix executed BEFORE main(): namespace-scope TimeStamps, an
+// Observable with two Observers, and a static object whose constructor runs the tokens of $C19_PRE.  Built twice:
+// this file before TimeStamp.cpp in link order and after it (static initialisers of different translation units run
+// in link order), so that the counter is used before / after its own translation unit was initialised.
+static TimeStamp gS0;
+static Observable gHub;
+static Observer gLookA(gHub);
+static Observer gLookB(gHub);
+static TimeStamp gS1;
+struct PreMain
+{
+  HRun *run;
+  std::string glob;     // what the namespace-scope objects did before main
+  PreMain() : run(nullptr)
+  {
+    bool inc = freshCheck(size_t(gS0));
+#ifdef C19_PRIV
+    inc = freshCheck(size_t(gHub.lastNotified)) && inc;
+    inc = freshCheck(size_t(gLookA.lastObserved)) && inc;
+    inc = freshCheck(size_t(gLookB.lastObserved)) && inc;
+#endif
+    inc = freshCheck(size_t(gS1)) && inc;
+    bool a0 = gLookA.wasNotified();
+    gHub.notifyObservers();
+    bool a1 = gLookA.wasNotified(), a2 = gLookA.wasNotified();
+    std::ostringstream g;
+    g << "pre:" << (inc ? "increasing" : "NOT-increasing") << "," << a0 << a1 << a2;
+    glob = g.str();
+    run = new HRun();
+    const char *pre = getenv("C19_PRE");
+    if (pre) { for (auto &tok : split(pre, ' ')) if (!tok.empty()) run->step(tok); }
+  }
+};
+static PreMain gPre;
+
+static int mainStatic()
+{
+  const char *post = getenv("C19_POST");
+  if (post) { for (auto &tok : split(post, ' ')) if (!tok.empty()) gPre.run->step(tok); }
+  std::string line = gPre.run->finish();
+  // the namespace-scope objects again, now inside main: B was never polled, so it has the pre-main notification pending;
+  // then one more notification reaches both observers exactly once; a fresh stamp is larger than everything before
+  bool b1 = gLookB.wasNotified(), b2 = gLookB.wasNotified();
+  gHub.notifyObservers();
+  gHub.notifyObservers();
+  bool a3 = gLookA.wasNotified(), a4 = gLookA.wasNotified(), b3 = gLookB.wasNotified(), b4 = gLookB.wasNotified();
+  TimeStamp fresh;
+  bool inc = freshCheck(size_t(fresh));
+  gS1.renew();
+  inc = freshCheck(size_t(gS1)) && inc;
+  std::cout << line << " ## " << gPre.glob << " main:" << (inc ? "increasing" : "NOT-increasing") << "," << b1 << b2 << a3 << a4 << b3 << b4
+            << std::endl;
+  return 0;
+}
+#endif
 
 static std::string runT(const std::vector<std::string> &items)
 {
@@ -279,8 +359,11 @@ static int runThreads(int nthreads, long iters)
 int main(int argc, char **argv)
 {
   std::string mode = argc > 1 ? argv[1] : "lines";
+#ifdef C19_STATIC_INIT
+  if (mode == "static") return mainStatic();
+#endif
   if (mode == "counter") {
-#ifdef C19_PRIV
+#if defined(C19_PRIV) && defined(C19_COUNTER)
     unsigned long long start = argc > 2 ? std::strtoull(argv[2], nullptr, 10) : 0;
     int n = argc > 3 ? std::atoi(argv[3]) : 1;
     long iters = argc > 4 ? std::atol(argv[4]) : 16;
